@@ -76,6 +76,15 @@ CHECKS = {
    note="Known finding C12-F1 (atomic + little ordering) excluded by region; bus-write-wins priority in a same-cycle race is "
         "an interpretation of the statement (stated in the evidence).",
    tech="deterministic simulation, seeded access/device-update interleaving incl. same-cycle races, per-cycle refinement against a register-file model"),
+ "C15": dict(cat="fault_enumeration", ref="DESIGN.md 5.C15",
+   text="Real EventManager (1-12 sources: pulse, process rising/falling, level) behind a real CSRBank (8/32-bit) and SharedIRQ "
+        "over two managers; literal trigger waveforms and software accesses; a per-source model (set wins over clear, level "
+        "mirrors, status raw) is stepped every cycle, irq == OR(pending & enable) and SharedIRQ == OR(irqs) checked every "
+        "cycle, every clear pulse must be explained by a written one on that very bit and vice versa. The sweep family "
+        "enumerates the offset of a second trigger from -4 to +5 cycles around the clear for every source kind and bus "
+        "width; the rest is seeded sampling.",
+   note="Software writes whole registers (all words, address order). The clients (Timer, UART, GPIO) are exercised in C19.",
+   tech="deterministic simulation, clear/trigger alignment enumerated cycle by cycle + seeded waveform/access interleavings, per-cycle model"),
  "C16": dict(cat="exploration", ref="DESIGN.md 5.C16",
    text="Seeded search over header definitions, data widths, packet lists, valid/ready schedules and selector changes for "
         "Packetizer, Depacketizer, their round trip, PacketFIFO, Arbiter and Dispatcher on the real simulator; outputs "
